@@ -311,6 +311,15 @@ def _val(model, var):
     return None
 
 
+def _pop(real, num=1):
+    """z3.Optimize.pop() takes no count"""
+    if isinstance(real, _z3.Optimize):
+        for _ in range(num):
+            real.pop()
+    else:
+        real.pop(num)
+
+
 class SimSolver:
     """Proxy around one real z3 Solver / SolverFor / Optimize object."""
 
@@ -357,7 +366,7 @@ class SimSolver:
     def pop(self, num=1):
         self.depth -= num
         self._env.trace("pop", depth=self.depth)
-        return self._real.pop(num)
+        return _pop(self._real, num)
 
     def set(self, *args, **kwargs):
         self._env.trace("set", args=[str(a) for a in args], kwargs={k: str(v) for k, v in kwargs.items()})
@@ -384,12 +393,6 @@ class SimSolver:
     def param_descrs(self):
         return self._real.param_descrs()
 
-    def to_smt2(self):
-        return self._real.to_smt2()
-
-    def sexpr(self):
-        return self._real.sexpr()
-
     def reason_unknown(self):
         if self._last_verdict == "injected-unknown":
             return self._reason
@@ -406,9 +409,13 @@ class SimSolver:
         return self._handed
 
     def __getattr__(self, name):
-        # anything not listed above goes to the real object (and is visible in the trace)
+        # anything not listed above goes to the real object (and is visible in the trace);
+        # hasattr() therefore answers as the real object would (to_smt2 / sexpr)
+        if name.startswith("__"):
+            raise AttributeError(name)
+        attr = getattr(self._real, name)
         self._env.trace("passthrough", name=name)
-        return getattr(self._real, name)
+        return attr
 
     def _budgeted(self, real, limit, *assumptions):
         """one real engine check under the per-check and per-run deterministic resource
@@ -595,7 +602,7 @@ class SimSolver:
                             break
             finally:
                 if pushed:
-                    real.pop(pushed)
+                    _pop(real, pushed)
             if model is None:
                 env.steer_refused += 1
                 ev["steer"] = {"mode": "greedy", "admitted": False}
